@@ -91,6 +91,26 @@ def _warm_queries(g, names):
             pass
 
 
+def _decorate(g, ids):
+    """variable types and (nested) metadata on the nodes, so that derived sub-graphs can be checked to carry them over"""
+    from cai_causal_graph.type_definitions import NodeVariableType
+    vts = list(NodeVariableType)
+    for i, nm in enumerate(ids):
+        node = g.get_node(nm)
+        node.variable_type = vts[(i + len(ids)) % len(vts)]
+        if i % 2:
+            node.meta = {'i': i, 'w': [i, {'k': nm}]}
+
+
+def attrs_kept(sub, g):
+    """every node of a derived sub-graph carries the variable type and metadata of the node it came from"""
+    for node in sub.get_nodes():
+        src = g.get_node(node.identifier)
+        if node.variable_type != src.variable_type or node.meta != src.meta:
+            return False
+    return True
+
+
 def build(n, arcs, names=NAMES):
     """The DAG with the given arcs, reached by one of several histories chosen deterministically from the arcs: plain
     insertion; insertion with queries of every family half way (warm caches); a detour through an extra node and an extra
@@ -108,6 +128,7 @@ def build(n, arcs, names=NAMES):
         for i in range(n):
             if i not in touched:
                 g.add_node(names[i])
+        _decorate(g, ids)
         return g
     g.add_nodes_from(ids)
     half = len(arcs) // 2
@@ -132,6 +153,7 @@ def build(n, arcs, names=NAMES):
         g = g.copy()
     if mode == 7:
         g = CausalGraph.from_dict(g.to_dict())
+    _decorate(g, ids)
     return g
 
 
@@ -186,8 +208,11 @@ def _answers(g, n, arcs, which):
             if x % 2 and (set(g.get_ancestors(g.get_node(N[x]))) != set(g.get_ancestors(N[x]))
                           or set(g.get_descendants(g.get_node(N[x]))) != set(g.get_descendants(N[x]))):
                 t += [999]
-            t += gview(g.get_ancestral_graph(N[x])) + gview(g.get_descendant_graph(N[x]))
-            t += gview(g.get_parents_graph(N[x])) + gview(g.get_children_graph(N[x]))
+            subs = [g.get_ancestral_graph(N[x]), g.get_descendant_graph(N[x]), g.get_parents_graph(N[x]), g.get_children_graph(N[x])]
+            if not all(attrs_kept(sg, g) for sg in subs):
+                t += [997]
+            t += gview(subs[0]) + gview(subs[1])
+            t += gview(subs[2]) + gview(subs[3])
         for x, y in opairs:
             a = g.is_ancestor(N[x], N[y])
             d = g.is_descendant(N[x], N[y])
